@@ -1437,3 +1437,9 @@ M("C10-parameter-const-compared", "C10", "src/cppparser/cppParameterList.cxx",
   "    if (!type->is_equivalent(*other_type)) {",
   "    if (!_parameters[i]->_type->is_equivalent(*other._parameters[i]->_type)) {",
   expect="R10.7|CPPParameterList::is_equivalent|compare#0")
+
+# ---------------------------------------------------------------- R12.4 identifier clause (F-C12b)
+M("C12-identifier-mismatch-still-read", "C12", "src/interrogatedb/interrogateDatabase.cxx",
+  "            set_error_flag(true);\n\n          } else if (_file_major_version != _current_major_version ||",
+  "            set_error_flag(true);\n          }\n\n          if (_file_major_version != _current_major_version ||",
+  expect="R12.4|load_latest|no-read-on-identifier-mismatch")
